@@ -40,10 +40,13 @@ def parse_fwf_row(incoming_row: str, fwf_format: dict, validate: bool = True) ->
         column_format_validations = column_format.get('validations')  # removed walrus operator for compatibility with 3.7
         if validate and column_format_validations:
             error_messages =  []
-            for column_format_validation in column_format_validations:
+            for validation_i, column_format_validation in enumerate(column_format_validations):
                 lambda_function_for_validation = eval("lambda column_value, row, parsed_row: " + column_format_validation)
                 if not lambda_function_for_validation(column_value, incoming_row, parsed_row):
-                    error_messages.append(column_format.get('error_message'))
+                    error_message = column_format.get('error_message')
+                    if error_message is None:
+                        error_message = f"Validation rule #{validation_i} for '{column_name}' failed"
+                    error_messages.append(error_message)
             if error_messages:
                 return incoming_row, ";".join(error_messages)
         parsed_row.update({column_name: column_value})
